@@ -66,7 +66,8 @@ def run_area(spec):
     index_img = np.arange(h * w, dtype=np.int64).reshape(h, w) + 1
 
     def m_area():
-        x, y = Proj(area.crs)(lons, lats)
+        # the area's own lon/lat -> projection step (a pyproj call; Proj(crs) formerly, a geodetic->crs Transformer now)
+        x, y = area.get_projection_coordinates_from_lonlat(lons.copy(), lats.copy())
         cols, rows = area.get_array_indices_from_lonlat(lons.copy(), lats.copy())
         return {"x": fh(x), "y": fh(y), "cm": ih(np.ma.getmaskarray(cols)), "c": ih(np.ma.getdata(cols)),
                 "rm": ih(np.ma.getmaskarray(rows)), "r": ih(np.ma.getdata(rows))}
@@ -80,10 +81,9 @@ def run_area(spec):
 
     def m_area_scalar():
         res = []
-        p = Proj(area.crs)
         for i in spec.get("scalar", []):
             lo, la = float(lons[i]), float(lats[i])
-            x, y = p(lo, la)
+            x, y = area.get_projection_coordinates_from_lonlat(lo, la)
             try:
                 c, r = area.get_array_indices_from_lonlat(lo, la)
                 code = int(r) * w + int(c) + 1 if (0 <= int(r) < h and 0 <= int(c) < w) else -3
